@@ -23,6 +23,8 @@ static m_list_t *L;  static m_list_itr_t *LI;
 static void dtor(void *p) { ((elem_t *)p)->dtor++; }
 static int keyof(int id) { return (id + 1) / 2; }
 static int cmp(void *a, void *b) { return keyof(((elem_t *)a)->id) - keyof(((elem_t *)b)->id); }
+/* VP_CMP=2: a comparator that is not reflexive: the searched datum matches the elements whose key is its own key + 1 */
+static int cmp_succ(void *a, void *b) { return keyof(((elem_t *)b)->id) - (keyof(((elem_t *)a)->id) + 1); }
 
 /* callback iteration: records visited ids, stops at the k-th */
 static int vis[64], nvis, stop_at, stop_rc;
@@ -35,7 +37,7 @@ static int visit_cb(void *up, void *data) {
 static void mk(void) {
     if (kind == 0) Q = m_queue_new(has_dtor ? dtor : NULL);
     else if (kind == 1) S = m_stack_new(has_dtor ? dtor : NULL);
-    else L = m_list_new(has_cmp ? cmp : NULL, has_dtor ? dtor : NULL);
+    else L = m_list_new(has_cmp == 2 ? cmp_succ : has_cmp ? cmp : NULL, has_dtor ? dtor : NULL);
 }
 static void fr(void) {
     if (kind == 0) m_queue_free(&Q);
@@ -174,7 +176,7 @@ int main(int argc, char **argv) {
     const char *k = getenv("VP_KIND");
     kind = !k || !strcmp(k, "queue") ? 0 : !strcmp(k, "stack") ? 1 : 2;
     has_dtor = getenv("VP_DTOR") && atoi(getenv("VP_DTOR"));
-    has_cmp = getenv("VP_CMP") && atoi(getenv("VP_CMP"));
+    has_cmp = getenv("VP_CMP") ? atoi(getenv("VP_CMP")) : 0;
     for (int i = 0; i <= NELEM; i++) E[i].id = i;
     vp_alloc_install();
     return gw_main(argc, argv);
